@@ -229,6 +229,13 @@ def r3(cx):
 def r4(cx):
     F = cx.F
     body = F.main_body(CS + 'expand_common')
+    TRIMS = [Q.re.compile(r'::trim(_end|_start|_matches|_end_matches|_start_matches)?$'), Q.re.compile(r'::strip_(suffix|prefix)$')]
+    # the conversion of the collected bytes may live in a private helper of the module called from expand_common
+    if not Q.find_calls(body, TRIMS):
+        for blk, t in body.calls():
+            for n in Q.callee_names(t):
+                if n.startswith(CS) and n in F.bodies and Q.find_calls(F.main_body(n), TRIMS):
+                    body = F.main_body(n)
     cx.fn(body.fn)
     du = Q.DefUse(body)
     trims = Q.find_calls(body, [Q.re.compile(r'::trim(_end|_start|_matches|_end_matches|_start_matches)?$'),
